@@ -2,7 +2,7 @@ import HcipyVerif.Lemmas.GridMut
 import HcipyVerif.Lemmas.GridHeap
 import HcipyVerif.Lemmas.GridOld
 import HcipyVerif.Lemmas.GridLayout
-import HcipyVerif.Model.GridShare
+import HcipyVerif.Lemmas.GridShare
 
 /-!
 # C10 — Grid identity: equality is an equivalence consistent with hashing
